@@ -9,7 +9,8 @@ import PngVerif.Model.Encoder
     (`Enc.runProg`; alias `c12 skeleton …`).  `res` = `ok` | `err:<Err>` | `panic:<PanicSite>`; the results of
     a stream-writer session are bracketed: `[new,op,…,end]`.  `iend` = IEND emissions attempted, `n`/`fnv` =
     number / FNV-1a-64 of the bytes the sink accepted, `sk` = the completely accepted chunks
-    `TYPE:len` joined by `/` (`fcTL:26:seq:w:h:x:y:dn:dd:dispose:blend`, `fdAT:len:seq`, `acTL:8:frames:plays`),
+    `TYPE:len` joined by `/` (`fcTL:26:<hex of the 26 bytes>`, `acTL:8:<hex>`: every field of the chunk;
+    `fdAT:len:seq`),
     `v` = `validPng` of the accepted bytes.
 
   cfg   : comma-separated `key=value`: `w= h= c=<colour type> d=<depth>` `an=<frames>:<plays>` (animated as
@@ -203,10 +204,10 @@ def errName : Err → String
 
 def siteName : PanicSite → String
   | .chunksZero => "chunksZero" | .resetDimUnderflow => "resetDimUnderflow"
-  | .animWrittenOverflow => "animWrittenOverflow" | .seqOverflow => "seqOverflow"
-  | .chunkBufferIndex => "chunkBufferIndex" | .rowSlice => "rowSlice"
+  | .animWrittenOverflow => "animWrittenOverflow"
+  | .rowSlice => "rowSlice"
   | .unreachableWrapper => "unreachableWrapper"
-  | .assertIndexZero => "assertIndexZero" | .setFctlNotAnimated => "setFctlNotAnimated"
+  | .assertIndexZero => "assertIndexZero"
   | .toWriteUnderflow => "toWriteUnderflow"
 
 def resName : Res → String
@@ -216,11 +217,8 @@ def resName : Res → String
 
 def chunkSk (c : RChunk) : String :=
   let base := s!"{tyName c.ty}:{c.data.length}"
-  if c.ty = tyFCTL ∧ c.data.length = 26 then
-    let f := parseFctlL c.data
-    s!"{base}:{f.seq}:{f.width}:{f.height}:{f.x}:{f.y}:{f.delayNum}:{f.delayDen}:{f.dispose}:{f.blend}"
+  if c.ty = tyFCTL ∨ c.ty = tyACTL then s!"{base}:{toHexL c.data}"
   else if c.ty = tyFDAT ∧ c.data.length ≥ 4 then s!"{base}:{be32At c.data 0}"
-  else if c.ty = tyACTL ∧ c.data.length = 8 then s!"{base}:{be32At c.data 0}:{be32At c.data 4}"
   else base
 
 def showVerdict (r : Except String Unit) : String :=
